@@ -71,6 +71,9 @@ pub fn take_abort_class() -> (String, String) {
         None => ("?:panic".into(), "?".into()),
         Some((file, line, msg)) => {
             let base = file.rsplit('/').next().unwrap_or("?").to_string();
+            if msg.starts_with(teos_common::verif::CRASH_MSG) {
+                return ("crash".into(), msg);
+            }
             let kind = if msg.contains("called `Option::unwrap()` on a `None` value") {
                 "unwrap_none".to_string()
             } else if let Some(i) = msg.find("on an `Err` value: ") {
@@ -237,6 +240,10 @@ pub struct Recorder {
     /// an abort of this poll was already reported by one of the observing listeners
     pub abort_reported: bool,
     pub scale: i64,
+    /// class of the last abort recorded ("" if none since it was last cleared)
+    pub last_abort: String,
+    /// durable part of the last projection
+    pub last_db: Value,
 }
 
 pub type Rec = Arc<Mutex<Recorder>>;
@@ -269,6 +276,7 @@ impl Recorder {
         let mut appts: Vec<Vec<i64>> = Vec::new();
         let mut trackers: Vec<Vec<i64>> = Vec::new();
         let mut last_known: i64 = 0;
+        let mut last_known_hash: Option<BlockHash> = None;
         let by_uuid_out: HashMap<Vec<u8>, (i64, i64)>;
         {
             let sym_users = self.sym.user_sym.clone();
@@ -335,6 +343,7 @@ impl Recorder {
                 if let Ok(raw) = st.query_row([], |r| r.get::<_, Vec<u8>>(0)) {
                     if let Ok(bh) = BlockHash::from_slice(&raw) {
                         last_known = *block_sym.get(&bh).unwrap_or(&-1);
+                        last_known_hash = Some(bh);
                     }
                 }
             }
@@ -345,7 +354,14 @@ impl Recorder {
         for (k, v) in by_uuid_out {
             self.uuid_map.insert(k, v);
         }
-        json!({"users": users, "appts": appts, "trackers": trackers, "lastKnown": last_known})
+        if let Some(h) = last_known_hash {
+            last_known = self.sym.block(&h);
+        }
+        // block ids are assigned in order of first sight and differ between runs: the height identifies the block on the active chain
+        let last_known_h: i64 = last_known_hash
+            .and_then(|h| self.node.lock().unwrap().known.get(&h).map(|(_, x)| *x as i64))
+            .unwrap_or(0);
+        json!({"users": users, "appts": appts, "trackers": trackers, "lastKnown": last_known, "lastKnownH": last_known_h})
     }
 
     /// in-memory copies through the verif hooks; falls back to the last snapshot when a mutex is poisoned
@@ -430,6 +446,10 @@ impl Recorder {
     /// Emits one event: `fields` must contain "act" and the action's arguments / reply.
     pub fn emit(&mut self, mut fields: Value, abort: &str) {
         let db = self.project_db();
+        self.last_db = db.clone();
+        if !abort.is_empty() {
+            self.last_abort = abort.to_string();
+        }
         let mem = self.project_mem();
         let mut post = db;
         for (k, v) in mem.as_object().unwrap() {
@@ -580,6 +600,8 @@ impl Rig {
             uuid_map: HashMap::new(),
             abort_reported: false,
             scale: cfg.scale as i64,
+            last_abort: String::new(),
+            last_db: json!({}),
         }));
         Rig {
             rec,
@@ -637,7 +659,9 @@ impl Rig {
                 let tip = if let Some(block_hash) = last_known_block {
                     src.get_header(&block_hash, None).await.unwrap().validate(block_hash).unwrap()
                 } else {
-                    lightning_block_sync::init::validate_best_block_header(&*src).await.unwrap()
+                    let best = lightning_block_sync::init::validate_best_block_header(&*src).await.unwrap();
+                    dbm.lock().unwrap().store_last_known_block(&best.header.block_hash()).unwrap();
+                    best
                 };
                 let gatekeeper = Arc::new(Gatekeeper::new(tip.height, cfg.slots, cfg.duration, cfg.grace, dbm.clone()));
                 let mut poller = ChainPoller::new(src.clone(), Network::Regtest);
